@@ -60,6 +60,9 @@ pub fn fixture_worlds() -> Vec<World> {
         ("reordered", vec![IN_YOMIGANA, IN_PROLONGED, IN_DEFAULT], vec![OOV_MECAB, OOV_REGEX, OOV_SIMPLE], vec![PR_KATAKANA1, PR_NUMERIC_NONORM]),
         ("prolonged-first", vec![IN_PROLONGED, IN_DEFAULT, IN_YOMIGANA], vec![OOV_REGEX, OOV_SIMPLE], vec![PR_NUMERIC]),
         ("norewrite", vec![IN_DEFAULT, IN_PROLONGED, IN_YOMIGANA], vec![OOV_MECAB, OOV_SIMPLE], vec![]),
+        // the SHIPPED character definition (resources/char.def): kanji numerals, Greek, Cyrillic ... carry their own classes there,
+        // so kanji numerals reach the numeral plugin and class runs differ from those of the cut-down test definition
+        ("shipped-chardef", vec![IN_DEFAULT, IN_PROLONGED, IN_YOMIGANA], vec![OOV_SIMPLE], vec![PR_NUMERIC, PR_KATAKANA]),
     ];
     let mut out = Vec::new();
     // a user dictionary whose words are written in kana but split into the system dictionary's kanji units:
@@ -73,6 +76,9 @@ pub fn fixture_worlds() -> Vec<World> {
             extra_lex.push(json!([[6, 8, -3000], [6, 6, -3000], [7, 7, -2000], [7, 7, -2000], [7, 7, -2000]]));
         }
         let cfg = cfg_json(&i, &o, &p);
+        let res = if name == "shipped-chardef" {
+            dicts::resource_dir("fixture-shipped", &[("char.def", "/repo/resources/char.def"), ("rewrite.def", "/repo/resources/rewrite.def")])
+        } else { res.clone() };
         let dict = dicts::load(&cfg, &res, sys, users).unwrap_or_else(|e| panic!("world {}: {:?}", name, e));
         out.push(World {
             name: name.to_string(),
